@@ -39,6 +39,7 @@ type liveOpts struct {
 	pStdout, pStderr io.Reader // what the plugin process writes to its stdout/stderr after serving begins
 	syncOut, syncErr io.Writer // ClientConfig.SyncStdout / SyncStderr
 	tlsAuto          bool
+	badLines         string // not a plugin: writes this to stdout instead of serving, then lives on
 }
 
 func newLive(x *vs.Exec, o liveOpts) *liveClient {
@@ -59,6 +60,14 @@ func newLive(x *vs.Exec, o liveOpts) *liveClient {
 	script := servePlugin(so)
 	if o.noLine {
 		script = func(r *scriptRunner) { r.waitKilled() }
+	}
+	if o.badLines != "" {
+		script = func(r *scriptRunner) {
+			for _, l := range strings.SplitAfter(o.badLines, "\n") {
+				io.WriteString(r.stdout, l)
+			}
+			r.waitKilled()
+		}
 	}
 	lc.r = newScriptRunner(x, script)
 	if o.timeout == 0 {
@@ -147,6 +156,8 @@ func init() {
 				case "nohandshake":
 					o.noLine = true
 					o.timeout = 2 * time.Second
+				case "badhandshake": // a program that is not a plugin: prints a usage text and keeps running
+					o.badLines = "usage: tool [flags]\n  -h  help\n  -v  version\n"
 				}
 				done := false
 				o.onExit = func() { done = true }
@@ -155,7 +166,7 @@ func init() {
 				lcs = append(lcs, lc)
 				obj, err := lc.connect()
 				x.Obs("connect%d err=%v", i, err != nil)
-				if b == "nohandshake" {
+				if b == "nohandshake" || b == "badhandshake" {
 					continue
 				}
 				if err != nil {
@@ -302,7 +313,7 @@ func init() {
 		},
 		Instances: func(tier string) []explore.Params {
 			var out []explore.Params
-			behs := []string{"exit0", "exit1000", "exit1900", "ignore", "frozen", "crashed", "nohandshake", "busy", "busy-ignore"}
+			behs := []string{"exit0", "exit1000", "exit1900", "ignore", "frozen", "crashed", "nohandshake", "badhandshake", "busy", "busy-ignore"}
 			for _, proto := range []string{"netrpc", "grpc", "grpcmux"} {
 				for _, b := range behs {
 					pats := []string{"one", "two"}
